@@ -121,6 +121,8 @@ class Interp:
                 loc = self.extend(loc, p)
             elif isinstance(p, dict) and "v" in p:
                 loc = self.extend(loc, ("as", p.get("vn", p["v"])))
+            elif isinstance(p, dict) and "cidx" in p and not p.get("from_end"):
+                loc = self.extend(loc, p["cidx"])
             else:
                 return None
             if loc is None:
@@ -251,8 +253,8 @@ class Interp:
             a = rv["agg"]
             if a == "adt":
                 return ("var", rv["adt"], rv["variant"], tuple(vals)), st
-            if a == "tuple":
-                return (("tup", tuple(vals)) if vals else UNIT), st
+            if a == "tuple" or (a == "array" and vals):
+                return (("tup", tuple(vals)) if vals else UNIT), st        # (an array literal is read back by constant index)
             if a in ("closure", "coroutine", "coroutine_closure"):
                 return ("closure", rv["closure"], tuple(vals)), st
             return TOP, st
